@@ -40,6 +40,18 @@ ALLOWED_AXIOMS = {
     "FunctionalExtensionality.functional_extensionality_dep",
     "Classical_Prop.classic",
 }
+# further axioms declared by Coq's own standard library; a property module may opt in to some of them by naming
+# them in EXTRA_AXIOMS (they must then also be named in its TRUSTED list); nothing outside this set is ever accepted
+STDLIB_AXIOMS = {
+    "ClassicalEpsilon.constructive_indefinite_description",
+    "ClassicalUniqueChoice.dependent_unique_choice",
+    "ProofIrrelevance.proof_irrelevance",
+    "PropExtensionality.propositional_extensionality",
+    "Eqdep.Eq_rect_eq.eq_rect_eq",
+    "JMeq.JMeq_eq",
+    "FunctionalExtensionality.functional_extensionality_dep",
+    "ChoiceFacts.FunctionalRelReification_on",
+}
 NJOBS = int(os.environ.get("VERIF_JOBS", "12"))
 
 
@@ -284,7 +296,8 @@ class Run:
                 name = m.group(1)
                 if "." in name:
                     axioms.add(name)
-            extra = axioms - ALLOWED_AXIOMS
+            opt_in = set(getattr(self.mod, "EXTRA_AXIOMS", [])) & STDLIB_AXIOMS
+            extra = axioms - ALLOWED_AXIOMS - opt_in
             self.obligations += 1
             if extra:
                 self.broken.append(("axioms", "unexpected assumptions: %s" % sorted(extra)))
